@@ -77,7 +77,14 @@ def model_rdm(case):
             label = ['euclidean', 'Euclidean', 'squared euclidean', None][len(m['points']) % 4]
             obj = RDMs(np.array([d0], dtype=float), dissimilarity_measure=label)
             return ModelFixed('sim_model', obj), None, np.array(d0)
-        return ModelFixed('sim_model', np.array(d0)), None, np.array(d0)
+        vec = np.array(d0, dtype=float)
+        if vec.size and np.all(vec == np.round(vec)) and vec.max() < 60000:
+            # integral model RDMs (Hamming / count / category distances) as they are usually held:
+            # unsigned or signed integer vectors, by the parity of their sum
+            tot = int(vec.sum())
+            vec = vec.astype(np.uint16 if tot % 3 == 0 else np.uint8 if tot % 3 == 1 and vec.max() < 256
+                             else np.int64)
+        return ModelFixed('sim_model', vec), None, np.array(d0)
     d1 = sq_dists(m['points2'], m['scale'])
     if m['kind'] == 'fixed_multi':
         from rsatoolbox.rdm import RDMs
@@ -225,6 +232,7 @@ def check_roundtrip(case):
             elif case['n_channel'] >= 3:
                 require(core.maxdiff(first, other) > 1e-9 * math.sqrt(dmax),
                         'default (fresh signal): simulation %d equals simulation 0' % s, 'fresh-signal')
+    check_siblings_after_sort(case, dss, mod, theta, cond_vec)
 
 
 def check_mixture_design(case, dss, mod, theta, pred, z):
@@ -250,6 +258,22 @@ def check_mixture_design(case, dss, mod, theta, pred, z):
                                     'the model RDM give %.10g' % (s, r, core._short(z[r]), q,
                                                                  core._short(z[q]), got, want),
                                     'exact:design-matrix-rows')
+
+
+def check_siblings_after_sort(case, dss, mod, theta, cond_vec):
+    """each simulated dataset carries the condition vector: sorting one of them in place (what one
+    does before averaging by condition) leaves the others as they were simulated"""
+    if len(dss) < 2 or cond_vec.ndim != 1:
+        return
+    before = [np.array(d.measurements, copy=True) for d in dss]
+    lib(dss[0].sort_by, 'cond_vec', on_error='reject')
+    for s_ in range(1, len(dss)):
+        got = np.asarray(dss[s_].obs_descriptors['cond_vec'], dtype=float)
+        require(got.shape == cond_vec.shape and np.array_equal(got, cond_vec) and
+                np.array_equal(np.asarray(dss[s_].measurements), before[s_]),
+                'after sorting simulation 0 in place by its condition vector, simulation %d carries '
+                'cond_vec %s (simulated with %s)' % (s_, core._short(got), core._short(cond_vec)),
+                'descriptor:cond_vec:shared-between-simulations')
 
 
 def classify_sim(case):
